@@ -34,6 +34,42 @@ type Engine struct {
 	tier     string
 	goArgs   [][2]interface{}
 	verif    string
+	funcIDs  map[string]int
+	chanMade map[string]bool // element types of channels created in the repository packages
+	chanSent map[string]bool // element types of channels the repository packages send on
+}
+
+// closedOnlyChan reports whether channels of this element type are created inside the repository
+// packages and never sent on there: a receive from such a channel can complete only once the
+// channel has been closed (assumption recorded by the caller: the channel is not handed to code
+// outside the repository that sends on it).
+func (e *Engine) closedOnlyChan(elem types.Type) bool {
+	if e.chanMade == nil {
+		e.chanMade, e.chanSent = map[string]bool{}, map[string]bool{}
+		for fn := range ssautil.AllFunctions(e.prog) {
+			if fn.Pkg == nil || !strings.HasPrefix(fn.Pkg.Pkg.Path(), "github.com/enbility/spine-go") {
+				continue
+			}
+			for _, b := range fn.Blocks {
+				for _, ins := range b.Instrs {
+					switch x := ins.(type) {
+					case *ssa.MakeChan:
+						e.chanMade[canonType(x.Type().Underlying().(*types.Chan).Elem())] = true
+					case *ssa.Send:
+						e.chanSent[canonType(x.Chan.Type().Underlying().(*types.Chan).Elem())] = true
+					case *ssa.Select:
+						for _, s := range x.States {
+							if s.Dir == types.SendOnly {
+								e.chanSent[canonType(s.Chan.Type().Underlying().(*types.Chan).Elem())] = true
+							}
+						}
+					}
+				}
+			}
+		}
+	}
+	k := canonType(elem)
+	return e.chanMade[k] && !e.chanSent[k]
 }
 
 func loadEngine(repo, verif string) (*Engine, error) {
@@ -198,6 +234,25 @@ func (e *Engine) ifaceID(t types.Type) int {
 	n := len(e.ifaces) + 1
 	e.ifaces[k] = n
 	return n
+}
+
+// funcID gives every function of the program a stable number (its rank among all function names), so that
+// distinct functions are distinct values in the spawn log and differ from every interface method id.
+func (e *Engine) funcID(f *ssa.Function) int {
+	if e.funcIDs == nil {
+		var names []string
+		for fn := range ssautil.AllFunctions(e.prog) {
+			names = append(names, fn.String())
+		}
+		sort.Strings(names)
+		e.funcIDs = map[string]int{}
+		for i, n := range names {
+			if _, ok := e.funcIDs[n]; !ok {
+				e.funcIDs[n] = i
+			}
+		}
+	}
+	return e.funcIDs[f.String()]
 }
 
 func (e *Engine) methodID(name string) int {
